@@ -188,7 +188,8 @@ def check_case(prog, inputs, flags, res):
                 "program": text,
             })
             return
-    if got["error"] in ("watchdog", "MemoryError"):
+    if got["error"] in ("watchdog", "MemoryError", "RecursionError"):
+        # resource limits of the host interpreter, not a statement about the program
         res["inconclusive"].append({"why": got["error"], "program": text, "inputs": inputs, "flags": flags})
         return
     if isinstance(got["final_stack"], dict):
